@@ -8,4 +8,7 @@ if ! go build -tags verif -o bin/vcheck ./cmd/vcheck 2>bin/build.log; then
   echo "HARNESS-ERROR: build failed (see bin/build.log)"; head -20 bin/build.log
   exit 2
 fi
+if [ "$1" = "C12" ]; then
+  if ! go build -o bin/c12x ./cmd/c12x 2>>bin/build.log; then echo "HARNESS-ERROR: c12x build failed"; exit 2; fi
+fi
 exec ./bin/vcheck run "$1" --tier "$VERIF_TIER"
